@@ -131,10 +131,23 @@ func verifC09_Inherit() {
 	if vRule0ViaDefault {
 		verifCover("policy-through-defaultPolicyRef")
 	}
-	old := &RateLimiter{spec: vSpec(1)}
+	// rule 0 may select its requests by a regular expression instead of an exact path
+	byRegex := verifBool("rule0.matchesByRegex")
+	useRegex := func(sp *Spec) {
+		if byRegex {
+			sp.URLs[0].URL = urlrule.StringMatch{RegEx: "^/re[0-9]$"}
+		}
+	}
+	oldSpec := vSpec(1)
+	useRegex(oldSpec)
+	old := &RateLimiter{spec: oldSpec}
 	old.Init()
 	// exhaust the strict rule of the old generation
 	exact := old.spec.URLs[0].URL.Exact
+	if byRegex {
+		exact = "/re1"
+		verifCover("rule-matching-by-regex")
+	}
 	post := func() *httpprot.Request {
 		return &httpprot.Request{Request: &http.Request{Method: "POST", URL: &url.URL{Path: exact}, Header: http.Header{}}}
 	}
@@ -148,7 +161,8 @@ func verifC09_Inherit() {
 		nl = 2
 	}
 	ns := vSpec(nl)
-	verifAssume(ns.URLs[0].URL.Exact == exact && ns.URLs[1].URL.Prefix == old.spec.URLs[1].URL.Prefix)
+	verifAssume((byRegex || ns.URLs[0].URL.Exact == exact) && ns.URLs[1].URL.Prefix == old.spec.URLs[1].URL.Prefix)
+	useRegex(ns)
 	// a rule that gets its policy through defaultPolicyRef also changes policy when the
 	// default is pointed at another (itself unchanged) policy
 	if vRule0ViaDefault && !changed && verifBool("defaultPolicyRefSwitched") {
